@@ -21,6 +21,11 @@ pub open spec fn resp_ok<T>(r: Response<T>) -> bool {
     attrs_ok(r.attributes@) && forall|i: int| 0 <= i < r.events@.len() ==> event_ok(#[trigger] r.events@[i])
 }
 
+// the entry point's result after the response check: an Ok response that is not acceptable becomes an error
+pub open spec fn verified<T>(rr: AnyResult<Response<T>>) -> AnyResult<Response<T>> {
+    match rr { Err(e) => Err(e), Ok(resp) => if resp_ok(resp) { Ok(resp) } else { Err(AnyError) } }
+}
+
 impl<ExecC, QueryC> WasmKeeper<ExecC, QueryC> {
     // what a call_* wrapper does, written from the statements
     pub open spec fn call_unfold(&self, kind: Entry, router: &dyn CosmosRouter<ExecC, QueryC>, s0: St, block: BlockInfo, address: Addr, info: Option<MessageInfo>, msg: Seq<u8>, reply: Option<Reply>) -> (AnyResult<Response<ExecC>>, St) {
@@ -32,14 +37,12 @@ impl<ExecC, QueryC> WasmKeeper<ExecC, QueryC> {
                     // C08: the contract is handed exactly its own window; C10: its querier answers from s0, the state of
                     // the enclosing transaction right now; C05: env names the callee and the current block
                     let (rr, w1) = handler.entry_sem(kind, window(s0, contract_prefix(address)), (s0, block), env_of(address, block), info, msg, reply);
-                    match rr {
-                        Err(e) => (Err(e), s0),      // a failing entry point leaves no trace
-                        Ok(resp) => {
-                            // C08: only keys under the contract's prefix can differ afterwards
-                            let s1 = splice(s0, contract_prefix(address), w1);
-                            // C13: a malformed response makes the call fail (the enclosing transaction rolls back)
-                            if resp_ok(resp) { (Ok(resp), s1) } else { (Err(AnyError), s1) }
-                        }
+                    // C13, from the statement: a malformed response makes the call fail "with the same rollback as any
+                    // other contract error" -- so it is judged before anything is kept
+                    match verified(rr) {
+                        Err(e) => (Err(e), s0),      // a failing entry point (or a rejected response) leaves no trace
+                        // C08: only keys under the contract's prefix can differ afterwards
+                        Ok(resp) => (Ok(resp), splice(s0, contract_prefix(address), w1)),
                     }
                 }
             },
